@@ -124,8 +124,8 @@ def run(ctx):
                           pname(P), [pname(p) for p in sorted(set(want) - set(got))], [pname(p) for p in sorted(set(got) - set(want))]))
 
     _min_distance(ctx, prog)
-    _decision(ctx, prog)
-    _dispatch(ctx, prog, enum_b)
+    dec = _decision(ctx, prog)
+    _dispatch(ctx, prog, enum_b, dec)
     _effects(ctx, prog)
 
 
@@ -287,6 +287,7 @@ def _decision(ctx, prog):
     tv = _const_value(prog, 'collisions::TOUCH_ONLY')
     ctx.check(nv is not None and tv is not None and nv < tv and tv == 0.0, 'R10.4', 'decision/constants', b.where(0), b.path,
               'NEVER_COLLIDES < TOUCH_ONLY == 0 required', found='%s, %s' % (nv, tv))
+    return b
 
 
 def _const_value(prog, name):
@@ -328,7 +329,7 @@ def _self_fld(t):
     return None
 
 
-def _dispatch(ctx, prog, enum_b):
+def _dispatch(ctx, prog, enum_b, dec):
     b = util.find_role(ctx, 'task evaluation: RobotBody fn taking Vec<CollisionTask>',
                        lambda b, sg: len(sg) > 1 and 'Vec<collisions::CollisionTask' in sg[1].replace('std::vec::', ''), module='collisions::')
     calls = {}
@@ -366,7 +367,7 @@ def _dispatch(ctx, prog, enum_b):
     # each closure evaluates task.collides(safety parameter)
     for c in util.closure_bodies(prog, b.path):
         ctx.fn(c)
-        cs = [(bi, t) for bi, t in c.calls() if cname(callee_name(t)) == 'CollisionTask::collides']
+        cs = [(bi, t) for bi, t in c.calls() if t['callee'].get('resolved') == dec.path]
         ctx.check(len(cs) == 1, 'R10.6', 'dispatch/closure-%s' % c.path.split('::')[-1], c.where(0), c.path, 'task closure must evaluate the task decision exactly once')
     # RobotBody::collides: NoCheck -> false, forces FirstCollisionOnly, negates is_empty
     cb = util.find_one(ctx, suffix='collisions::RobotBody::collides')
@@ -397,25 +398,38 @@ def _dispatch(ctx, prog, enum_b):
     ctx.check(kinds == {'nocheck-false', 'first-nonempty'}, 'R10.6', 'collides()', cb.where(0), cb.path,
               'collides() must be false in NoCheck and otherwise !first-collision-result.is_empty()', found=sorted(kinds))
     # public entry points hand the right table to the enumeration
+    # private forwarder(s): RobotBody methods that take a safety table and hand it to the enumeration (found by role)
+    forwarders = [x for x in prog.bodies.values() if x.raw.get('impl_self') == 'collisions::RobotBody' and x.kind != 'Closure' and x.path != enum_b.path and
+                  any(t['callee'].get('resolved') == enum_b.path for _, t in x.calls()) and
+                  any('SafetyDistances' in x.local_ty(i) for i in range(2, x.arg_count + 1)) and not x.raw.get('vis_pub', False) and
+                  x.path.split('::')[-1] not in ('near',)]
+    fw_names = {'RobotBody::' + x.path.split('::')[-1] for x in forwarders} | {'RobotBody::' + enum_b.path.split('::')[-1]}
     for name, want in (('collision_details', 'self.safety'), ('near', 'param'), ('collides', 'self.safety'), ('non_colliding_offsets', 'self.safety')):
         e = [x for x in prog.find(suffix='collisions::RobotBody::' + name)]
         bodies = e + [c for x in e for c in util.closure_bodies(prog, x.path)]
         found = None
+        kind = None
         for x in bodies:
             for bi, t in x.calls():
                 n = cname(callee_name(t))
-                if n in ('RobotBody::detect_collisions', 'RobotBody::' + enum_b.path.split('::')[-1]):
-                    for a in t['args']:
-                        s = show(x.op_term(a, (bi, None)), maxdepth=5)
-                        if 'safety' in s:
-                            found = s
-        ok = found is not None and (('self' in found and '.safety' in found and 'safety_distances' not in found) if want == 'self.safety' else ('safety_distances' in found))
+                if n in fw_names:
+                    callee = prog.bodies.get(t['callee'].get('resolved'))
+                    for pos, a in enumerate(t['args']):
+                        if callee is not None and 'SafetyDistances' not in callee.local_ty(pos + 1):
+                            continue
+                        term = strip(x.op_term(a, (bi, None)))
+                        found = show(term, maxdepth=5)
+                        if util.param_index(term) is not None and x.kind != 'Closure':
+                            kind = 'param'
+                        elif isinstance(term, tuple) and term[0] == 'fld' and term[2] == 'safety' and 'self' in show(term[1], maxdepth=3):
+                            kind = 'self.safety'
+                        else:
+                            kind = 'other'
+        ok = kind == want
         ctx.check(ok, 'R10.5', 'entry/' + name, e[0].where(0) if e else '', e[0].path if e else name,
                   'entry point must evaluate with %s' % ('the body\'s own table' if want == 'self.safety' else 'the table given by the caller'), found=found)
     # detect_collisions forwards its safety parameter
-    dc = prog.find(suffix='collisions::RobotBody::detect_collisions')
-    if dc:
-        x = dc[0]
+    for x in forwarders:
         ctx.fn(x)
         ok = False
         for bi, t in x.calls():
